@@ -26,6 +26,7 @@ type c22Seg struct {
 	ps    *seg.PathSegment
 	segID uint16
 	sigma []uint16 // reference: first two MAC bytes of the hop entry of AS i, big endian
+	beta  []uint16 // reference: beta_i (filled by refBeta)
 }
 
 func c22Segment(n int) c22Seg {
@@ -46,11 +47,15 @@ func c22Segment(n int) c22Seg {
 
 // refBeta is beta_i of the documentation.
 func (r *c22Seg) refBeta(i int) uint16 {
-	b := r.segID
-	for k := 0; k < i; k++ {
-		b ^= r.sigma[k]
+	if r.beta == nil { // beta_0 .. beta_n, computed once
+		b := r.segID
+		r.beta = append(r.beta, b)
+		for k := 0; k < len(r.sigma); k++ {
+			b ^= r.sigma[k]
+			r.beta = append(r.beta, b)
+		}
 	}
-	return b
+	return r.beta[i]
 }
 
 // VerifC22Extract: clause (a), the beaconing side. extractBeta of a beacon that already carries i
